@@ -1,7 +1,7 @@
 (* C11 — Key order is a strict total order and the storage engine honours it.
    This file contains only the property theorems (each closed by [exact]) and Print Assumptions. *)
 From Coq Require Import List NArith Sorting.Sorted Sorting.Permutation.
-From Oxia.KeyOrder Require Import Model Proofs SortedMap KvModel KvProofs.
+From Oxia.KeyOrder Require Import Model Proofs SortedMap KvModel KvProofs BatchModel BatchProofs.
 Import ListNotations.
 
 (* CompareWithSlash (the Go loop) computes the lexicographic order on slash-segments *)
@@ -164,3 +164,29 @@ Theorem c11_merge_sorted : forall chans : list (list Oxia.Client.Model.item),
   (Oxia.Client.MergeProofs.err_free (concat chans) -> Permutation (concat chans) (Oxia.Client.Inst.merge_slash chans)).
 Proof. exact Oxia.Client.InstProofs.merge_slash_sorted_perm. Qed.
 Print Assumptions c11_merge_sorted.
+
+(* the server-side response batcher (BatchStreamOnce: Read / List / RangeScan answers) between the engine's sorted
+   iterator and the client preserves order and multiplicity, for every count limit, byte budget, size function and
+   item sequence: the concatenation of the flushed messages is the input *)
+Theorem c11_response_batches_preserve_order : forall (A : Type) (max_count budget : N) (size : A -> N) (l : list A),
+  concat (batch_stream max_count budget size l) = l.
+Proof. exact (@batch_stream_concat). Qed.
+Print Assumptions c11_response_batches_preserve_order.
+
+Theorem c11_response_batches_nonempty : forall (A : Type) (max_count budget : N) (size : A -> N) (l : list A),
+  Forall (fun b => b <> []) (batch_stream max_count budget size l).
+Proof. exact (@batch_stream_nonempty). Qed.
+Print Assumptions c11_response_batches_nonempty.
+
+(* a stream completed with an error has delivered a prefix of the input, in order *)
+Theorem c11_response_batches_failed_prefix : forall (A : Type) (max_count budget : N) (size : A -> N) (l : list A),
+  exists rest, concat (batch_stream_failed max_count budget size l) ++ rest = l.
+Proof. exact (@batch_stream_failed_prefix). Qed.
+Print Assumptions c11_response_batches_failed_prefix.
+
+(* a message goes over the byte budget by less than its last item *)
+Theorem c11_response_batches_budget : forall (A : Type) (max_count budget : N) (size : A -> N) (l : list A),
+  Forall (fun b => (fold_right (fun x s => (size x + s)%N) 0%N (removelast b) < budget)%N \/ removelast b = [])
+         (batch_stream max_count budget size l).
+Proof. exact (@batch_stream_budget). Qed.
+Print Assumptions c11_response_batches_budget.
